@@ -40,6 +40,9 @@ from . import constraints_c     # noqa
 from . import supervised        # noqa
 from . import c16_calibration   # noqa
 from . import c11_itml          # noqa
+from . import c15_scml          # noqa
+from . import c13_sdml          # noqa
+from . import c14_mmc           # noqa
 
 
 # every contract contributes a unit to each property it is tagged with (prop=[...])
